@@ -337,6 +337,9 @@ func runC01(w *World, r *Report) {
 		}
 	}
 
+	r.Rule("C01.chain-stage-values-not-mutated", "Chain.Append* complete a stage (key translation around a branch condition …) in a copy, never in the value the caller handed in: the same *ChainBranch appended to two chains is the same function composition in both (shared with C20)", 3)
+	chainAppendArgsNotMutated(w, r, "C01.chain-stage-values-not-mutated")
+
 	r.Rule("C01.branch-slot", "calculateBranch selects a branch's copy of the node output and its handler list by the branch's position in the node's own branch list (the range index), not by a field of the shared *GraphBranch object (shared with C07)", 1)
 	branchSlotIsLoopIndex(w, r, "C01.branch-slot")
 
